@@ -43,7 +43,7 @@ def run(P, tier="quick"):
                 perf = n.val
     if perf is None:
         raise AnalysisBroken("VF_PER_F_Z0 not found")
-    rng = range(0, 3)
+    rng = range(0, 3) if tier == "quick" else range(0, 4)
     nconf = 0
     ncommit = 0
     bad = {}
